@@ -99,6 +99,7 @@ M0 == [cmds     |-> <<>>,   \* every command ever queued: [kind |-> "plain"|"cb"
        wire     |-> <<>>,   \* command ids written, in order
        dl       |-> [l \in Listeners |-> <<>>],
        dn       |-> <<>>,   \* per disconnect request: times notified
+       dk       |-> <<>>,   \* per disconnect request: what its callback does ("plain" | "again" | "submit")
        exc      |-> FALSE,  \* an exception escaped / a Deferred was fired twice
        wroteNow |-> <<>>, dlNow |-> <<>>, cbNow |-> <<>>]
 
@@ -163,11 +164,13 @@ RemLM(mm, l, n) ==
      ELSE m1
 
 \* what a listener does when it is called
-BehOf(l) == IF l \in {"raise", "self", "other"} THEN l ELSE "ok"
+BehOf(l) == IF l \in {"raise", "self", "other", "adder"} THEN l ELSE "ok"
 Victim == "ok2"
+Late == "late"          \* the listener that "adder" registers (for the same event name) while it is being called
 Behave(mm, l, n) ==
   CASE BehOf(l) = "self"  -> IF l \in SeqToSet(mm.cbs[n]) THEN RemLM(mm, l, n) ELSE mm
     [] BehOf(l) = "other" -> IF Victim \in SeqToSet(mm.cbs[n]) THEN RemLM(mm, Victim, n) ELSE mm
+    [] BehOf(l) = "adder" -> IF Late \in SeqToSet(mm.cbs[n]) THEN mm ELSE AddLM(mm, Late, n)
     [] OTHER -> mm
 
 \* Event.got_update: ls is the list being iterated, i the position;
@@ -234,15 +237,32 @@ FailAll(mm, cs) ==
   ELSE LET c == Head(cs) IN
        FailAll(IF mm.res[c].k = "p" THEN Fire(mm, c, Out("disc", "", <<>>)) ELSE mm, Tail(cs))
 
-\* connectionLost
-LoseM(mm) ==
-  LET outstanding == (IF mm.command # 0 THEN <<mm.command>> ELSE <<>>) \o mm.queue
-      m1 == [mm EXCEPT !.lost = TRUE, !.command = 0, !.defer = 0,
-                       !.queue = IF "c03_stuck" \in Dev THEN @ ELSE <<>>,
-                       !.dn = [i \in 1..Len(@) |-> @[i] + 1]]
-  IN FailAll(m1, outstanding)
+\* when_disconnected().  The user's callback may re-enter the protocol: "again" asks to be told once
+\* more (a second component registering itself), "submit" queues a plain command.
+RECURSIVE NotifyDisc(_, _)
+DiscReact(mm, kind) ==
+  CASE kind = "again"  -> [mm EXCEPT !.dn = Append(@, 1), !.dk = Append(@, "plain")]   \* already lost: told at once
+    [] kind = "submit" -> QueueCmd(mm, "plain", {})
+    [] OTHER -> mm
+\* SingleObserver.fire: the requests made before the loss are told in order (requests made by their
+\* callbacks are told at once and are not in this list)
+NotifyDisc(mm, idx) ==
+  IF idx = <<>> THEN mm
+  ELSE NotifyDisc(DiscReact([mm EXCEPT !.dn[Head(idx)] = @ + 1], mm.dk[Head(idx)]), Tail(idx))
 
-WhenDiscM(mm) == [mm EXCEPT !.dn = Append(@, IF mm.lost THEN 1 ELSE 0)]
+\* connectionLost: disconnect requests are told first - while the unanswered commands are still in
+\* place, so a command submitted from such a callback joins them - then every unanswered command fails
+LoseM(mm) ==
+  LET m0 == [mm EXCEPT !.lost = TRUE]
+      m1 == NotifyDisc(m0, [i \in 1..Len(mm.dn) |-> i])
+      outstanding == (IF m1.command # 0 THEN <<m1.command>> ELSE <<>>) \o m1.queue
+      m2 == [m1 EXCEPT !.command = 0, !.defer = 0,
+                       !.queue = IF "c03_stuck" \in Dev THEN @ ELSE <<>>]
+  IN FailAll(m2, outstanding)
+
+WhenDiscM(mm, kind) ==
+  LET m1 == [mm EXCEPT !.dn = Append(@, IF mm.lost THEN 1 ELSE 0), !.dk = Append(@, kind)]
+  IN IF mm.lost THEN DiscReact(m1, kind) ELSE m1
 
 ----------------------------------------------------------------------------
 (* Ghost: who must / may receive an event, from the user's view of the      *)
@@ -250,6 +270,8 @@ WhenDiscM(mm) == [mm EXCEPT !.dn = Append(@, IF mm.lost THEN 1 ELSE 0)]
 GBehave(r, l) ==
   CASE BehOf(l) = "self"  -> IF l \in SeqToSet(r) THEN RemoveFirst(r, l) ELSE r
     [] BehOf(l) = "other" -> IF Victim \in SeqToSet(r) THEN RemoveFirst(r, Victim) ELSE r
+    \* a listener registered during delivery hears later events, not the one being delivered
+    [] BehOf(l) = "adder" -> IF Late \in SeqToSet(r) THEN r ELSE Append(r, Late)
     [] OTHER -> r
 
 \* returns [r |-> registrations afterwards, must |-> set, may |-> set]
@@ -296,8 +318,9 @@ RemL(l, n) ==
   /\ cnt' = [cnt EXCEPT !.lop = @ + 1]
   /\ UNCHANGED <<pending, cur, replies, nline, nev, exp, may>>
 
-WhenDisc ==
-  /\ m' = WhenDiscM(Reset(m))
+WhenDisc(kind) ==
+  /\ kind \in {"plain", "again", "submit"}
+  /\ m' = WhenDiscM(Reset(m), kind)
   /\ cnt' = [cnt EXCEPT !.disc = @ + 1]
   /\ UNCHANGED <<pending, cur, replies, nline, nev, reg, exp, may>>
 
@@ -350,7 +373,7 @@ Lose ==
 Next ==
   \/ \E k \in SubmitKinds : Submit(k) /\ (IF m.lost THEN cnt.post < MaxPost ELSE cnt.sub < MaxCmd)
   \/ \E l \in Listeners, n \in EvNames : (AddL(l, n) \/ RemL(l, n)) /\ cnt.lop < MaxLop /\ ~m.lost
-  \/ WhenDisc /\ cnt.disc < MaxDisc
+  \/ \E k \in {"plain", "again", "submit"} : WhenDisc(k) /\ cnt.disc < MaxDisc
   \/ \E rs \in ReplyShapes : BeginReply(rs[1], rs[2])
   \/ \E n \in EvNames, sh \in EventShapes : BeginEvent(n, sh) /\ nev < MaxEv
   \/ Line
